@@ -57,7 +57,7 @@ def one_case(rng, tier, wrapped=False):
 
 
 def generate(rng, tier):
-    n = 1200 if tier == "quick" else 20000
+    n = 2500 if tier == "quick" else 25000
     cases = []
     nw = 0
     for _ in range(n):
